@@ -202,3 +202,40 @@ def path_condition(fnode, target, expand=True):
         return False
     walk(fnode.body, ('const', True))
     return found[0] if found else None
+
+
+def expr_condition(fnode, node, expand=True):
+    """Condition under which the expression ``node`` is evaluated: the path condition of its statement, and - inside the
+    statement - the tests of the conditional expressions, the earlier operands of and/or and the ``if`` clauses of the
+    comprehensions it sits in.  An ``if`` statement with an append and a conditional expression inside a comprehension are
+    the same thing to the rules that ask "when is this value produced?"."""
+    from .util import parent_map
+    pm = parent_map(fnode)
+    conds = []
+    child, cur = node, pm.get(id(node))
+    stmt = None
+    while cur is not None:
+        if isinstance(cur, ast.stmt):
+            stmt = cur
+            # the header expression of a compound statement is not guarded by its own test
+            break
+        if isinstance(cur, ast.IfExp):
+            if child is cur.body:
+                conds.append(formula(cur.test, fnode if expand else None))
+            elif child is cur.orelse:
+                conds.append(Not(formula(cur.test, fnode if expand else None)))
+        elif isinstance(cur, ast.BoolOp):
+            idx = [i for i, v in enumerate(cur.values) if v is child]
+            if idx and idx[0] > 0:
+                prev = [formula(v, fnode if expand else None) for v in cur.values[:idx[0]]]
+                conds.append(And(*prev) if isinstance(cur.op, ast.And) else And(*[Not(p) for p in prev]))
+        elif isinstance(cur, (ast.ListComp, ast.SetComp, ast.GeneratorExp, ast.DictComp)):
+            if not any(child is g for g in cur.generators):
+                for g in cur.generators:
+                    for i in g.ifs:
+                        conds.append(formula(i, fnode if expand else None))
+        child, cur = cur, pm.get(id(cur))
+    base = path_condition(fnode, stmt, expand) if stmt is not None else ('const', True)
+    if base is None:
+        base = ('const', True)
+    return And(base, *conds)
